@@ -595,6 +595,12 @@ class AsyncIterable:
         self.st.given += 1
         return AsyncSrc(self.st)
 
+    def __iter__(self) -> Any:
+        # the collection offers the synchronous protocol TOO (a result set usable from both worlds) - and refuses it
+        # in asynchronous code.  It is asynchronously iterable: that is how asynchronous tools iterate it
+        CTX.foreign.append(f"the asynchronously iterable {self.st.sid} was iterated through its synchronous protocol")
+        raise RuntimeError("synchronous iteration in an asynchronous context")
+
 
 class SyncIterable:
     """The synchronous twin of ``AsyncIterable``: a *sized*, lazily produced collection (a dataset / record store with
